@@ -36,6 +36,8 @@ def encode_array(obj):
     def default_encode(obj):
         return obj.tolist(), {}
 
+    obj = np.asarray(obj)
+
     encoders = {
         "m": encode_timedelta,
         "M": encode_datetime,
